@@ -51,8 +51,12 @@ pub fn build(dict: &str, aux: &Value) -> Vec<u8> {
     // 62: defined in the original body, freed by an incremental update (the newest mention is the free entry)
     let o = d.obj(62, 0, b"<< /Type /Pages /Kids [] /Count 0 /Stale true >>");
     e.push((62, XEntry::InUse { off: o, gen: 0 }));
+    // 63: the same, but the update's free entry keeps generation 0 (`0000000000 00000 f`, or a cross-reference stream
+    // without a generation column): common in practice, and the newest mention still says free
+    let o = d.obj(63, 0, b"<< /Type /Pages /Kids [] /Count 0 /Stale true >>");
+    e.push((63, XEntry::InUse { off: o, gen: 0 }));
     let first = d.xref_table(&e, 70, "/Root 68 0 R", None, Split::Min);
-    d.xref_table(&[(62, XEntry::Free { next: 0, gen: 1 })], 70, "/Root 68 0 R", Some(first), Split::Min);
+    d.xref_table(&[(62, XEntry::Free { next: 0, gen: 1 }), (63, XEntry::Free { next: 0, gen: 0 })], 70, "/Root 68 0 R", Some(first), Split::Min);
     d.buf
 }
 
